@@ -565,4 +565,34 @@ def bracket_siblings(repo: Repo) -> RuleRun:
 
 bracket_siblings.rule_id = "C03.BRACKET-SIBLINGS"
 
-RULES = [registry_agreement, closure, invert_complete, validation_siblings, dimensions, bracket_siblings]
+def unit_ratio_tests(repo: Repo) -> RuleRun:
+    """Every relation that switches between the geometric-progression formula and its limit for ratio 1 decides
+    'ratio == 1' with the same purely absolute test |ratio - 1| vs util.constants.TOL. A wider or relative window in one
+    sibling makes that relation return the uniform count for ratios its inverse relation still treats as graded."""
+    from .. import tolerance
+
+    r = RuleRun(PROP, "C03.UNIT-RATIO-TESTS", floor=5, what="every 'ratio == 1' switch in the relations is |ratio - 1| against TOL, absolute; no relative closeness test outside the two length-uniformity tests")
+    with_switch = []
+    for fn in relation_functions(repo):
+        if tolerance.tests_in(repo, fn.module, fn.node):
+            with_switch.append(fn.qualname)
+    r.require(len(with_switch) >= 5, f"only {len(with_switch)} relation(s) with a recognised unit-ratio switch; 7 were confirmed by reading")
+    tolerance.check_functions(r, repo, with_switch, scan_modules=("grading.relations", "grading.chop", "grading.grading"))
+    return r
+
+
+unit_ratio_tests.rule_id = "C03.UNIT-RATIO-TESTS"
+
+def copy_well_posed(repo: Repo) -> RuleRun:
+    """A chop re-created for another edge (Chop.copy_preserving) must hand exactly two quantities to the closure - the
+    count and the preserved one; a left-over third value makes Chop.calculate return the stale one, so the given
+    parameters are not reproduced. Same rule as C04.PRESERVE-CARRIED."""
+    from ..report import rebrand
+    from . import c04
+
+    return rebrand(c04.preserve_carried(repo), PROP, "C03.COPY-WELL-POSED")
+
+
+copy_well_posed.rule_id = "C03.COPY-WELL-POSED"
+
+RULES = [registry_agreement, closure, invert_complete, validation_siblings, dimensions, bracket_siblings, unit_ratio_tests, copy_well_posed]
